@@ -277,6 +277,35 @@ let show_sequence (s : sequence) : string =
      | Ok d -> "ok:" ^ (if full then hex_of_bytes d else digest_list [d])
      | Err -> "err" | Fault -> "fault")
 
+(* C05 begin: commitments, namespaced merkle tree *)
+let show_obytes (o : bytes outcome) : string = show_outcome hex_of_bytes o
+let c05_blob (ns : bytes) (ver : n) (signer : string) (data : bytes) : blob outcome =
+  new_blob ns data ver (parse_signer signer)
+(* one row of shares, a leaf range [start, start+len):
+   A = ComputeSubtreeRoot(start, start+len) on the row tree (mirror of the Go function);
+   B = the same range looked up as an inner node by following the root recursion of the row
+       (the harness prints the root of a separate tree holding only those leaves);
+   C = the row root, computed (when the row is a power of two long and A is defined) as the
+       root over the nodes of that level, else directly (the harness prints Root()) *)
+let c05_rownode (row : bytes list) (start : n) (len : n) : string =
+  let leaves = row_leaves row in
+  if not (nmt_push_ok leaves) then "err" else begin
+    let hashes = nmt_leaf_hashes sha256 leaves in
+    let f = hash_node_o sha256 and e = Ok (nmt_empty_root sha256) in
+    let a = nmt_subtree_root sha256 leaves start (N.add start len) in
+    let b = match a with
+      | Ok _ -> (match inner_node f e hashes start len with
+                 | Some v -> show_obytes v
+                 | None -> "none")
+      | _ -> "-" in
+    let nrow = List.length row in
+    let c = match a with
+      | Ok _ when nrow land (nrow - 1) = 0 -> mroot f e (level_nodes f e hashes len)
+      | _ -> nmt_compute_root sha256 hashes in
+    String.concat ";" [show_obytes a; b; show_obytes c]
+  end
+(* C05 end *)
+
 let run (op : string) (a : string array) : string =
   let arg i = a.(i) in
   let n i = n_of_string (arg i) in
@@ -370,6 +399,13 @@ let run (op : string) (a : string array) : string =
      | Ok (sq, kept) -> "ok:" ^ show_square sq ^ ":" ^ show_big_list kept
      | Err -> "err" | Fault -> "fault")
   | "construct" -> show_outcome show_square (construct (hex_list (arg 2)) (z 0) (n 1))
+  (* ---- C07: the layout written from the rules (Spec/LayoutSpec.v) ---- *)
+  | "specbuild" ->
+    (match layout_build (hex_list (arg 2)) (z 0) (n 1) with
+     | Ok (sq, kept) -> "ok:" ^ show_square sq ^ ":" ^ show_big_list kept
+     | Err -> "err" | Fault -> "fault")
+  | "specconstruct" -> show_outcome show_square (layout_construct (hex_list (arg 2)) (z 0) (n 1))
+  | "speccompactix" -> show_list hex_of_bytes (compact_spec_ix (h 0) N0 (hex_list (arg 1)))
   | "condecon" ->
     show_outcome show_big_list
       (bind (construct (hex_list (arg 2)) (z 0) (n 1)) (deconstruct mock_pfb_decoder))
@@ -385,6 +421,16 @@ let run (op : string) (a : string array) : string =
     (* construct, then ParseShares on the result *)
     show_outcome (show_list show_sequence)
       (bind (construct (hex_list (arg 3)) (z 1) (n 2)) (fun sq -> parse_shares sq (arg 0 = "1")))
+  (* C05 begin *)
+  | "sha256" -> hex_of_bytes (sha256 (h 0))
+  | "subtreeroots" ->
+    show_outcome (show_list hex_of_bytes)
+      (bind (c05_blob (h 0) (n 1) (arg 2) (h 3)) (fun b -> subtree_roots_sha b (n 4)))
+  | "commitment" ->
+    show_obytes (bind (c05_blob (h 0) (n 1) (arg 2) (h 3)) (fun b -> commitment_sha b (n 4)))
+  | "merkleroot" -> hex_of_bytes (merkle_root sha256 (hex_list (arg 0)))
+  | "rownode" -> c05_rownode (hex_list (arg 0)) (n 1) (n 2)
+  (* C05 end *)
   | _ -> failwith ("unknown op " ^ op)
 
 let () =
